@@ -232,6 +232,35 @@ void *vstd_memcpy(void *d, const void *s, unsigned long n) { return memcpy(d, s,
 '''
 
 
+STRUCT_CPP = '''#include <memory>
+namespace rlbox { namespace vinst {
+struct VStructV { int operator()(std::unique_ptr<tainted<VInner, vsbx>>) const; };
+} }
+'''
+
+
+def struct_pointer_cav_inst(tier):
+    """p.copy_and_verify(v) on a pointer to a struct (branch cond3): the verifier gets a fresh application object whose fields are the
+    guest-ABI decoding of the pointee's guest image (8 bytes for VInner under the 32-bit guest, not the application layout)"""
+    TP = cs('rlbox::tainted<rlbox::VInner *, rlbox::vsbx>')
+    TS = cs('rlbox::tainted<rlbox::VInner, rlbox::vsbx>')
+    GH = PRE_GHOST + ' unsigned long g_new_bytes; unsigned g_news; void *g_new_ptr; unsigned g_vcalls; int g_vret; void *g_src;\nstruct GUEST_VInner { int32_t a; int32_t b; };\n'
+    stub = ('int verifier_stub(struct %s *arg)\n'
+            '__CPROVER_requires(arg != 0 && (void *)arg == g_new_ptr && g_news == 1 && g_new_bytes == sizeof(struct %s) && !__CPROVER_same_object(arg, g_src)) /*@verifier_gets_a_fresh_application_object*/\n'
+            '__CPROVER_requires(MI(arg->a.data) == MI(((const struct GUEST_VInner *)g_src)->a) && MI(arg->b.data) == MI(((const struct GUEST_VInner *)g_src)->b)) /*@fields_are_the_guest_decoding_of_the_pointee*/\n'
+            '__CPROVER_ensures(g_vcalls == __CPROVER_old(g_vcalls) + 1 && __CPROVER_return_value == g_vret)\n__CPROVER_assigns(g_vcalls);\n' % (TS, TS))
+    cl = [('wf', '__CPROVER_requires(V_BACKEND_WF)'),
+          ('pointee_is_a_guest_image', '__CPROVER_requires(__CPROVER_r_ok((const struct %s *)$this, sizeof(struct %s)) && (void *)((const struct %s *)$this)->data == g_src && __CPROVER_r_ok(g_src, sizeof(struct GUEST_VInner)) && V_WHICH((uintptr_t)g_src) != -1 && g_vcalls == 0 && g_news == 0)' % (TP, TP, TP)),
+          ('verifier_runs_once_and_its_result_is_returned', '__CPROVER_ensures(g_vcalls == 1 && $ret == g_vret)'),
+          ('frame', '__CPROVER_assigns(g_vcalls, g_new_bytes, g_news, g_new_ptr)')]
+    h = REGIONS + ('  struct GUEST_VInner img; __CPROVER_assume(V_WHICH((uintptr_t)&img) != -1); g_src = &img; g_expect_example = 0; g_noabort = 0; g_backend_nonnull = 0;\n'
+                   '  struct %s p; p.data = (void *)&img; g_vcalls = 0; g_news = 0; int in_vret; g_vret = in_vret; struct S_VStructV vf;\n  int r = $ROOT((void *)&p, vf);\n' % TP)
+    return Inst('c07_copy_and_verify_struct_pointer', 'tainted<VInner*, vsbx>& p, VStructV verifier', 'p.copy_and_verify(verifier);', cl, h,
+                leaves=['dynamic_check', 'vsbx.impl_get_unsandboxed_pointer_no_ctx', 'find_sandbox_from_example'], prop=PROP, root_name='copy_and_verify', tier=tier,
+                pre=GH, pre_defines=OBJVIEW, post_protos=stub, opts={'param_fn_stubs': {'*': 'verifier_stub'}}, extra_replace=['verifier_stub'], object_bits=12,
+                note='non-null pointer to a struct in sandbox memory (a null pointer is dereferenced by this branch on the pinned tree: outside the claim)')
+
+
 def units(tier):
     insts = []
     ts = ['long', 'int', 'short', 'bool', 'unsigned long', 'double'] if tier == 'quick' else list(SC)
@@ -278,7 +307,7 @@ def units(tier):
         it.prop = PROP
         insts.append(it)
     return [Unit('C07_guest_bytes', insts), Unit('C07_copy_and_verify', cinsts, extra_cpp=C09.EXTRA_CPP),
-            Unit('C07_struct_fields', sinsts, includes=('rlbox.hpp', 'vsbx.hpp', 'vstructs.hpp'))]
+            Unit('C07_struct_fields', sinsts + [struct_pointer_cav_inst(tier)], includes=('rlbox.hpp', 'vsbx.hpp', 'vstructs.hpp'), extra_cpp=STRUCT_CPP)]
 
 
 ASSUMPTIONS = [
